@@ -69,6 +69,8 @@ type Chain struct {
 	Time    time.Time
 	pending [][]byte
 	Halted  string // non-empty after FinalizeBlock returned an error or panicked
+	// NoProposalPhases: deliver blocks with FinalizeBlock only (no PrepareProposal / ProcessProposal)
+	NoProposalPhases bool
 }
 
 func seedBytes(tag string, i int) []byte {
@@ -256,6 +258,38 @@ func (c *Chain) NextBlock(dt time.Duration) (res BlockResult, err error) {
 				err = fmt.Errorf("FinalizeBlock panic: %v", r)
 			}
 		}()
+		// the block goes through the application's proposal phases as on a node: the proposer's PrepareProposal (which may add
+		// entries of its own), every validator's ProcessProposal (a refusal of the honest proposal means no block is ever
+		// produced again), then FinalizeBlock on the prepared list.  Transactions that do not decode never reach a proposal on
+		// a node (CheckTx); a block that carries such bytes is delivered as it is.
+		nUser := len(txs)
+		if !c.NoProposalPhases && c.AllDecode(txs) {
+			proposer := c.Vals[0].Priv.PubKey().Address()
+			pp, perr := c.App.PrepareProposal(&abci.PrepareProposalRequest{Height: c.Height, Time: c.Time, Txs: txs, MaxTxBytes: 1 << 24,
+				LocalLastCommit: abci.ExtendedCommitInfo{}, ProposerAddress: proposer})
+			if perr != nil {
+				err = fmt.Errorf("PrepareProposal failed: %w", perr)
+				return
+			}
+			// the node's own ABCI calls between proposals are not ordered: a validator may process proposals it has not seen
+			// prepared, more than once, or none at all (block replay); here: once, plus once more every third block
+			for k := 0; k < 1+int(c.Height%3)/2; k++ {
+				pr, perr := c.App.ProcessProposal(&abci.ProcessProposalRequest{Height: c.Height, Time: c.Time, Txs: pp.Txs,
+					ProposedLastCommit: c.votes(), ProposerAddress: proposer, Hash: []byte(fmt.Sprintf("%032d", c.Height))})
+				if perr != nil {
+					err = fmt.Errorf("ProcessProposal failed: %w", perr)
+					return
+				}
+				if pr.Status != abci.PROCESS_PROPOSAL_STATUS_ACCEPT {
+					err = fmt.Errorf("ProcessProposal rejected the block prepared by PrepareProposal (status %s)", pr.Status)
+					return
+				}
+			}
+			if len(pp.Txs) < nUser {
+				nUser = len(pp.Txs)
+			}
+			txs = pp.Txs
+		}
 		var fb *abci.FinalizeBlockResponse
 		fb, err = c.App.FinalizeBlock(&abci.FinalizeBlockRequest{
 			Height:            c.Height,
@@ -265,7 +299,11 @@ func (c *Chain) NextBlock(dt time.Duration) (res BlockResult, err error) {
 			ProposerAddress:   c.Vals[0].Priv.PubKey().Address(),
 		})
 		if err == nil {
+			// entries appended by PrepareProposal are not user transactions: their results are not reported
 			res.Txs = fb.TxResults
+			if len(res.Txs) > nUser {
+				res.Txs = res.Txs[:nUser]
+			}
 			_, err = c.App.Commit()
 		}
 	}()
@@ -274,6 +312,16 @@ func (c *Chain) NextBlock(dt time.Duration) (res BlockResult, err error) {
 		c.Halted = err.Error()
 	}
 	return res, err
+}
+
+func (c *Chain) AllDecode(txs [][]byte) bool {
+	dec := c.App.TxConfig().TxDecoder()
+	for _, bz := range txs {
+		if _, err := dec(bz); err != nil {
+			return false
+		}
+	}
+	return true
 }
 
 // QueueTx signs msgs with account i and queues the transaction for the next block.
